@@ -25,6 +25,12 @@ void fpsym_check(int cond, const char *label);
 void fpsym_output(double v, const char *tag);
 // vacuity witness: `v` must depend on at least one symbol (driver asks the solver for two inputs that differ)
 void fpsym_nonconst(double v, const char *label);
+// the concrete value of v on this run with its shadow stripped (for harness-internal bookkeeping such as look-up keys;
+// never used to compute an operand of an obligation)
+double fpsym_concrete(double v);
+// identity of the expression carried by v (0 when v is concrete); equal ids <=> syntactically identical expression.
+// Harness-internal look-ups key on it so that a coincidence of concrete values on the class representative does not merge points.
+long fpsym_exprid(double v);
 // integer meta-data for evidence (sizes, counts)
 void fpsym_note(const char *key, long v);
 // inputs violating cond are outside the claim: the run stops here and the class is recorded as "assumed away"
@@ -34,6 +40,10 @@ void fpsym_finish(void);
 // number of symbolic comparison atoms recorded so far (to attribute atoms to program phases)
 long fpsym_pc_size(void);
 }
+#include <utility>
+typedef std::pair<long, double> fpsym_key_t;
+static inline fpsym_key_t fpsym_key(double v){ long id = fpsym_exprid(v); return id ? fpsym_key_t(id, 0.0) : fpsym_key_t(0, fpsym_concrete(v)); }
+static inline std::vector<fpsym_key_t> fpsym_keys(const std::vector<double> &x){ std::vector<fpsym_key_t> k(x.size()); for (size_t j=0;j<x.size();j++) k[j] = fpsym_key(x[j]); return k; }
 // small integer derived from a symbolic real: values 0..n-1 ; the fptosi below is instrumented, so the
 // value class joins the path condition and the solver enumerates all n classes
 static inline int fpsym_choice(int id, int n, int dflt){
